@@ -379,6 +379,12 @@ def catalogue(fs, rng, rich=False):
          'in': {'t': 'env', 'window': 'cosine-squared', 'start': 0, 'dur': 8, 'rise': 2, 'in': tone}},
         {'t': 'repeat', 'n': 2, 'skip': 0, 'rate': fs / 9.0, 'delay': 0.0, 'in': {'t': 'fixed', 'n': 9}},
         {'t': 'repeat', 'n': 2, 'skip': 0, 'rate': fs / 9.0, 'delay': 1 / fs, 'in': {'t': 'fixed', 'n': 9}},  # too long
+        # off-grid times: round(start*fs) + round(dur*fs) != round((start+dur)*fs)
+        {'t': 'env', 'window': 'cosine-squared', 'start': 3.3, 'dur': 12.4, 'rise': 2.7, 'in': tone},
+        {'t': 'env', 'window': 'hann', 'start': 2.4, 'dur': 9.4, 'rise': 3.3, 'in': sil1},
+        {'t': 'env', 'window': 'cos2class', 'start': 5.6, 'dur': 14.6, 'rise': None, 'in': tone2},
+        {'t': 'gate', 'start': 2.6, 'dur': 7.7, 'in': tone},
+        {'t': 'gate', 'start': 1.4, 'dur': 6.4, 'in': {'t': 'fixed', 'n': 15}},
         # depth-3 compositions
         {'t': 'env', 'window': 'cosine-squared', 'start': 2, 'dur': 20, 'rise': 3,
          'in': {'t': 'sam', 'depth': 1.0, 'fm': fs / 9.0, 'delay': 5 / fs, 'in': tone}},
